@@ -14,7 +14,7 @@ let () =
       | ["20"; a; b] | ["23"; a; b] -> string_of_z (divRoundUp (zs a) (zs b))
       | ["21"; a; b] -> string_of_z (divRoundUp_u (z_of_int 32) (zs a) (zs b))
       | ["22"; a; b] -> string_of_z (divRoundUp_u (z_of_int 64) (zs a) (zs b))
-      | ["24"; x; lo; hi] | ["27"; x; lo; hi] -> string_of_z (clampZ (zs x) (zs lo) (zs hi))
+      | ["24"; x; lo; hi] | ["27"; x; lo; hi] | ["47"; x; lo; hi] -> string_of_z (clampZ (zs x) (zs lo) (zs hi))
       | ["25"; seed; seq; n] ->
         String.concat "," (List.map string_of_z (pcg_stream (zs seed) (zs seq) (nat_of_int (int_of_string n))))
       | ["29"; seed; seq; n] ->      (* the engine assembled from REGENERATED pieces (GenRandom.gen_stream), machine reading *)
